@@ -15,8 +15,9 @@ BACKENDS = (
 SPEC, WD, PROJ, NAME = tok("SPEC"), tok("WD"), tok("PROJ"), "NAME"
 
 
-def make_target(options):
-    return Obj("target", name=NAME, spec=SPEC, working_dir=WD, options=dict(options), inputs=[], outputs=[])
+def make_target(ctx, options):
+    from .evalhelpers import target_obj
+    return target_obj(ctx, name=NAME, spec=SPEC, working_dir=WD, options=dict(options), inputs=[], outputs=[])
 
 
 def compile_script(ctx, mod, cname, options, log_mode="full"):
@@ -25,7 +26,7 @@ def compile_script(ctx, mod, cname, options, log_mode="full"):
     fn = idx.method(ci, "compile_script")
     interp = PureInterp(ctx)
     self_obj = Obj("ops", working_dir=PROJ, log_mode=log_mode, accounting_enabled=True, **{"__class__": ci})
-    script = interp.call(fn, (make_target(options),), {}, self_obj=self_obj)
+    script = interp.call(fn, (make_target(ctx, options),), {}, self_obj=self_obj)
     if not isinstance(script, str):
         raise Unsupported(f"compile_script returned {type(script).__name__}")
     return fn, script
@@ -214,7 +215,8 @@ def rule_resolution(ctx, r):
 
     interp = PureInterp(ctx, hooks={"attr:submit": fake_submit, "attr:update": lambda recv, *a: (recv.update(*a) if isinstance(recv, dict) else captured.setdefault("hashed", True))})
     backend = Obj("backend", target_defaults={"a": 1, "b": None, "c": "x", "d": "dflt"})
-    target = Obj("target", name=NAME, spec=SPEC, working_dir=WD, options={"b": 5, "c": None, "zz": 9, "d": "mine"})
+    from .evalhelpers import target_obj
+    target = target_obj(ctx, name=NAME, spec=SPEC, working_dir=WD, options={"b": 5, "c": None, "zz": 9, "d": "mine"})
     try:
         params = sb.positional_params()
         kwargs = {}
